@@ -526,12 +526,24 @@ def delete_old_backups(options):
         os.unlink(os.path.join(options.repository, fname))
 
 
+def check_stamp_unused(options, tnow):
+    # Backups of different kinds taken within one second would share their
+    # file name up to the extension, and their .dat and .index files.
+    root = gen_filename(options, '', tnow)
+    for fname in os.listdir(options.repository):
+        if os.path.splitext(fname)[0] == root:
+            raise WouldOverwriteFiles(
+                'Cannot overwrite existing file: %s'
+                % os.path.join(options.repository, fname))
+
+
 def do_full_backup(options):
     options.full = True
     tnow = gen_filedate(options)
     dest = os.path.join(options.repository, gen_filename(options, now=tnow))
     if os.path.exists(dest):
         raise WouldOverwriteFiles('Cannot overwrite existing file: %s' % dest)
+    check_stamp_unused(options, tnow)
     # Find the file position of the last completed transaction.
     fs = FileStorage(options.file, read_only=True)
     # Note that the FileStorage ctor calls read_index() which scans the file
@@ -565,6 +577,7 @@ def do_incremental_backup(options, reposz, repofiles):
     dest = os.path.join(options.repository, gen_filename(options, now=tnow))
     if os.path.exists(dest):
         raise WouldOverwriteFiles('Cannot overwrite existing file: %s' % dest)
+    check_stamp_unused(options, tnow)
     # Find the file position of the last completed transaction.
     fs = FileStorage(options.file, read_only=True)
     # Note that the FileStorage ctor calls read_index() which scans the file
